@@ -438,6 +438,11 @@ COPY_CALLS = {
 }
 
 
+# helpers of the repository whose result is bounded by one of their arguments:  name -> argument index.
+# (each contract is itself verified on the helper's body, see Analysis.ret_le)
+RET_LE_ARG = {"calc_sptab_count": 1, "calc_sptab_count_r": 1, "calc_non_sptab_count": 1, "calc_non_sptab_count_r": 1}
+
+
 class Analysis:
     """abstract interpretation of one function"""
 
@@ -683,11 +688,15 @@ class Analysis:
                     if m is not None and m >= 0:
                         a = self._reg_atom(e, ub=m)
                         self.info._nonneg[a] = True
-                        # (x & M) <= x for unsigned x
+                        # (x & M) <= x for unsigned x; for M = ~k (k = 2^n - 1) also x - k <= (x & M)
                         if facts is not None and "t" in core.strip_imp(o_) and self._is_unsigned(core.strip_imp(o_)["t"]):
                             ox = self.lin(o_, st, None)
                             if ox is not None:
                                 facts.append(atom(a).add(ox, -1))
+                                w_ = self._tinfo(e["t"]).get("w") or 64
+                                low = (~m) & ((1 << w_) - 1)
+                                if low and (low & (low + 1)) == 0 and low < (1 << 16):
+                                    facts.append(ox.add(atom(a), -1).plus(-low))
                         return atom(a)
                 return atom(self._reg_atom(e))
             if op == "/" and const_val(e["y"]) and const_val(e["y"]) > 0:
@@ -784,6 +793,14 @@ class Analysis:
         a = self._reg_atom(e, k=key(c))
         t = core.strip_casts(c["c"])
         x, y = self.lin(c["x"], st, None), self.lin(c["y"], st, None)
+        # the test was decided on this path (trace partition): the value is one of the arms
+        if t.get("k") == "bin" and t["op"] in ("==", "!=", "<", ">", "<=", ">="):
+            ta = key(t)
+            if ta in self.info._vars:
+                if x is not None and st.entails(atom(ta).scale(-1).plus(1), 2):
+                    return x
+                if y is not None and st.entails(atom(ta), 2):
+                    return y
         if facts is not None and x is not None and y is not None and t.get("k") == "bin" and t["op"] in ("<", ">", "<=", ">="):
             l, r = self.lin(t["x"], st, None), self.lin(t["y"], st, None)
             if l is not None and r is not None:
@@ -816,6 +833,12 @@ class Analysis:
         c = core.strip_casts(cond)
         if c is None:
             return
+        if c.get("k") == "bin" and c["op"] in ("==", "!=", "<", ">", "<=", ">=") and \
+                not any(x.get("k") in ("call",) for x, _ in walk(c)):
+            a = self._reg_atom(c, ub=1)
+            self.info._nonneg[a] = True
+            if not self.info.is_mem(a):
+                st.add_eq(atom(a), Lin({}, 1 if truth else 0))
         k = c.get("k")
         if k == "un" and c["op"] == "!":
             return self.assume(st, c["e"], not truth)
@@ -953,7 +976,12 @@ class Analysis:
             return None
         if k == "ret":
             if "e" in e:
-                self._ev(st, pos, e["e"], record)
+                rv = self._ev(st, pos, e["e"], record)
+                if record and getattr(self, "ret_le", None) and rv is not None:
+                    ok = st.entails(rv.add(atom(self.ret_le), -1))
+                    self.obligations.append(dict(pos=pos, ln=e.get("ln"), kind="ret", status="proved" if ok else "undecided",
+                                                 buf=self.ret_le, what="return " + key(e["e"]),
+                                                 detail="returned value <= %s" % self.ret_le))
             return None
         if k == "cast":
             self._ev(st, pos, e["e"], record)
@@ -1096,6 +1124,11 @@ class Analysis:
         L = lambda i: self.lin(args[i], st)
         v = atom(var)
         cf = []
+        if name in RET_LE_ARG and RET_LE_ARG[name] < len(args):
+            b_ = L(RET_LE_ARG[name])
+            if b_ is not None:
+                st.add(v.add(b_, -1))
+            return
         try:
             if name == "memchr" and len(args) == 3:
                 p, n = L(0), L(2)
@@ -1170,6 +1203,14 @@ class Analysis:
                                          detail="pointer derived from %s but no relation to its bounds is known here" % pv[0]))
             return
         rank, label, lo_ok, hi_ok, slack = best
+        # an alarm needs the strongest evidence: the bound is short by exactly one element (the classic
+        # off-by-one: '<=' for '<', terminator after an exactly fitting payload).  A bound that is weaker
+        # than that is far more often lost precision than a defect and is reported as undecided.
+        one = width if width else 1
+        if slack is not None and slack > one:
+            self.obligations.append(dict(pos=pos, ln=ln, kind=rw, status="undecided", buf=label, what=what or key(node),
+                                         detail="bound present but weaker than needed by %d bytes against %s" % (slack, label)))
+            return
         if slack is not None:
             self.obligations.append(dict(pos=pos, ln=ln, kind=rw, status="alarm", buf=label, what=what or key(node),
                                          detail="address is only known to stay within %d byte(s) past the end of %s "
@@ -1259,9 +1300,12 @@ class Analysis:
         work = {fn.entry}
         it = 0
         limit = max_iter * max(1, len(order))
+        import time as _time
+        t_start = _time.time()
+        budget = getattr(self, "budget", None)
         while work:
             it += 1
-            if it > limit:
+            if it > limit or (budget is not None and (it & 7) == 0 and _time.time() - t_start > budget):
                 self.diverged = True
                 break
             b = min(work, key=lambda x: idx.get(x, 1 << 30))
@@ -1329,6 +1373,10 @@ class Analysis:
                             tgt[nk] = newst
                             work.add(s)
         self.ins_parts = ins
+        if getattr(self, "diverged", False):
+            self.obligations = []
+            self.ins = {}
+            return self
         # merged view (used by the loop-progress helper)
         self.ins = {}
         for b, parts in ins.items():
